@@ -14,6 +14,19 @@ def _mk(ids, beh, **kw):
 
 def real_cases(pid, tier="thorough"):
     ids6 = [1, 2, 3, 4, 5, 6]
+    # C08, both tiers (about 4 s): (1) the replayed operations are process citizens of their own - some compute in a helper
+    # multiprocessing.Process, one in a helper thread; the verdicts are the same in-process and in the dedicated worker.
+    # (2) a long history under the finite descriptor limit every process has: 48 ordinary recordings at recycle rate 1
+    # (48 worker generations) with 40 descriptors of headroom - a run whose descriptor use does not grow with the number of
+    # worker generations gives all of them their verdict
+    citizens = [
+        _mk(ids6, {2: "spawns", 3: "spawns", 4: "spawns:thread", 5: "different", 6: "spawns"}, rate=2, timeout=5, keep=True,
+            probe="operation-uses-processes"),
+        _mk(list(range(1, 49)), {7: "different", 30: "different"}, rate=1, timeout=5, fd_headroom=40, watchdog=40.0,
+            probe="long-history-descriptor-limit"),
+    ]
+    if tier == "quick" and pid == "C08":
+        return citizens
     if tier == "quick":
         # anchors (about 3 s) for what the simulator assumes about real multiprocessing in its two newest behaviours:
         # an item that does not unpickle makes the parent's Queue.get raise and leaves the worker in place; a worker
@@ -28,7 +41,7 @@ def real_cases(pid, tier="thorough"):
         _mk(ids6, {1: "unloadable", 2: "unloadable", 4: "unloadable"}, rate=2, timeout=2),
     ]
     if pid == "C08":
-        return common + [
+        return common + citizens + [
             _mk(ids6, {2: "exit0", 3: "exit1", 5: "slow:1"}, rate=3, timeout=2, keep=True),
             _mk([1, 2, 3, 4, 5], {1: "different", 2: "player_raises", 3: "extractor_raises", 4: "comparator_raises"},
                 rate=2, timeout=2, keep=True),
